@@ -23,6 +23,7 @@ pub fn prop() -> Prop {
             Sub::tape("polylines", 72, 40_000, 2_000_000, |d, cx| run(d, cx, 1)),
             Sub::tape("images", 400, 50_000, 2_500_000, |d, cx| run(d, cx, 2)),
             Sub::tape("text", 300, 40_000, 2_000_000, |d, cx| run(d, cx, 3)),
+            Sub::tape("huge_sampled_rows", 400, 240, 12_000, huge),
         ],
     }
 }
@@ -105,5 +106,99 @@ fn check<C: ImgCol>(d: &mut Dec, cx: &mut Cx, kind: u32) -> Res {
     cx.nontrivial(a.0.map.len() >= 2 && native_calls >= 1);
     cx.count("native_fill_calls", native_calls as u64);
     cx.count("clipped_cases_cut", u64::from(!expected.is_empty() && expected.len() < a.0.map.len()));
+    Ok(())
+}
+
+
+/// Styled primitives of 1025..=3000 px (closed shapes with fitting radii, triangles, lines, strokes to 200)
+/// on a row-sampling target: `draw()` with native fills, `draw()` on a draw_iter-only target (trait
+/// defaults: O(area) pixels) and `pixels()` through `draw_iter` must leave the same colours on every probe
+/// of about 50 sampled rows (run ends of all three routes +-2, box edges, random columns).
+fn huge(d: &mut Dec, cx: &mut Cx) -> Res {
+    use crate::gen::{self, Shape};
+    use embedded_graphics::primitives::{Circle, CornerRadii, Ellipse, Line, RoundedRectangle, Triangle};
+    type C = Rgb888;
+    let kind = d.u(0, 5);
+    let big = |d: &mut Dec| match d.u(0, 2) {
+        0 => (d.pick(&[1024u32, 1448, 2048, 2896]) as i32 + d.i(-3, 3)).clamp(1025, 3000) as u32,
+        _ => d.u(1025, 3000),
+    };
+    let (w, h) = match d.u(0, 3) {
+        0 => (big(d), d.u(1, 80)),
+        1 => (d.u(1, 80), big(d)),
+        _ => (big(d), big(d)),
+    };
+    let tl = if d.bool() { Point::new(-(w as i32) / 2 + d.i(-3, 3), -(h as i32) / 2 + d.i(-3, 3)) } else { Point::new(d.i(-20_000, 20_000), d.i(-20_000, 20_000)) };
+    let shape = match kind {
+        0 => Shape::Rect(Rectangle::new(tl, Size::new(w, h))),
+        1 => Shape::Circle(Circle::new(tl, w)),
+        2 => Shape::Ellipse(Ellipse::new(tl, Size::new(w, h))),
+        3 => {
+            let (l, r) = { let a = d.u(0, w); (a, d.u(0, w - a)) };
+            let (tp, bt) = { let a = d.u(0, h); (a, d.u(0, h - a)) };
+            Shape::RRect(RoundedRectangle::new(Rectangle::new(tl, Size::new(w, h)), CornerRadii { top_left: Size::new(l, tp), top_right: Size::new(r, tp), bottom_right: Size::new(r, bt), bottom_left: Size::new(l, bt) }))
+        }
+        4 => {
+            // (vertices within +-3000 of the origin)
+            let a = Point::new(d.i(-1500, 1500), d.i(-1500, 1500));
+            let b = Point::new(d.i(-1500, 1500), d.i(-1500, 1500));
+            let c = Point::new(d.i(-1500, 1500), d.i(-1500, 1500));
+            let (b, c) = gen::structure_triangle(d, a, b, c);
+            Shape::Triangle(Triangle::new(a, Point::new(b.x.clamp(-3000, 3000), b.y.clamp(-3000, 3000)), Point::new(c.x.clamp(-3000, 3000), c.y.clamp(-3000, 3000))))
+        }
+        _ => Shape::Line(Line::new(tl, tl + Point::new(w as i32 * if d.bool() { 1 } else { -1 }, h as i32))),
+    };
+    let mut style = gen::style::<C>(d, if kind >= 4 { 20 } else { 200 });
+    if kind == 5 && style.stroke_width == 0 {
+        style.stroke_width = 1;
+    }
+    cx.describe(|| format!("{:?} {} [Rgb888]", shape, gen::style_desc(&style)));
+    cx.class(shape.kind());
+    let item: Item<C> = Item::Styled(shape.clone(), style);
+    let bb = item.bounding_box();
+    let (y0, y1) = (bb.top_left.y, bb.top_left.y + bb.size.height as i32);
+    let mut rows: std::collections::BTreeSet<i32> = Default::default();
+    for base in [y0, y1, (y0 + y1) / 2, y0 + style.stroke_width as i32, y1 - style.stroke_width as i32] {
+        for k in -2..=2 {
+            rows.insert(base + k);
+        }
+    }
+    for _ in 0..24 {
+        rows.insert(d.i(y0 - 3, y1 + 3));
+    }
+    let k = item.kind();
+    let mut native = RowsT::<C>::new(rows.iter().copied());
+    item.draw(&mut native).map_err(|e| err(k, "draw_native", e))?;
+    let mut defaults = IterOnly(RowsT::<C>::new(rows.iter().copied()));
+    item.draw(&mut defaults).map_err(|e| err(k, "draw_iter_only", e))?;
+    let mut px = RowsT::<C>::new(rows.iter().copied());
+    if let Some(r) = item.draw_pixels(&mut px) {
+        r.map_err(|e| err(k, "pixels", e))?;
+    }
+    let (x0, x1) = (bb.top_left.x, bb.top_left.x + bb.size.width as i32);
+    let mut painted = 0u64;
+    for &y in &rows {
+        let mut probes: std::collections::BTreeSet<i32> = Default::default();
+        for x in native.run_ends(y).into_iter().chain(defaults.0.run_ends(y).into_iter().take(64)).chain(px.run_ends(y).into_iter().take(64)).chain([x0, x1, (x0 + x1) / 2]) {
+            for k in -2..=2 {
+                probes.insert(x + k);
+            }
+        }
+        for _ in 0..6 {
+            probes.insert(d.i(x0 - 3, x1 + 3));
+        }
+        for &x in &probes {
+            let q = Point::new(x, y);
+            let (a, b, c) = (native.color_at(q), defaults.0.color_at(q), px.color_at(q));
+            painted += u64::from(a.is_some());
+            if a != b {
+                return fail(format!("{}:native_vs_iter", k), format!("{:?}: draw() on a native-fill target leaves {:?}, on a draw_iter-only target {:?}", q, a, b));
+            }
+            if a != c {
+                return fail(format!("{}:pixels_vs_draw", k), format!("{:?}: draw() leaves {:?}, pixels() through draw_iter {:?}", q, a, c));
+            }
+        }
+    }
+    cx.nontrivial(painted >= 2 && native.fills >= 1);
     Ok(())
 }
